@@ -9,10 +9,12 @@ NOTES = ("Every check: (1) regenerates extracted tables from /repo where the mod
 _PENDING = "check not yet built in this round (work in progress; the design in DESIGN.md §6 applies)"
 CHECKS = []
 NOT_APPLICABLE = []
+# only checks the coordinator has reviewed and seen pass are claimed (py/ready.txt, one id per line)
+READY = set(open(os.path.join(HERE, "ready.txt")).read().split())
 for n in range(1, 21):
     pid = f"C{n:02d}"
     path = os.path.join(HERE, "props", pid.lower() + ".py")
-    if os.path.exists(path):
+    if os.path.exists(path) and pid in READY:
         mod = importlib.import_module("props." + pid.lower())
         if getattr(mod, "MANIFEST", None) and not getattr(mod, "DISABLED", False):
             CHECKS.append(dict(mod.MANIFEST, id=pid))
